@@ -144,9 +144,12 @@ static void check_inside(Run &r, Box &b, void *p, char const *what, bool allow_e
     VP_CHECK(r.cx, ok, "seq:pointer_outside_storage", "%s returned %p, storage is [%p, %p) with element size %zu", what, p, (void *)base, (void *)(base + span), b.siz);
 }
 
+static size_t g_idx_siz = 1; // element size of the container the current operation works on
 static size_t gen_idx(Tape &t, size_t n, Run &r)
 {
-    uint8_t c = t.u8() % 16;
+    uint8_t cb = t.u8();
+    uint8_t c = cb % 16;
+    size_t near = (cb / 16) % (n + 3); // spare bits of the same byte: small offsets around the huge values
     size_t v;
     switch (c)
     {
@@ -158,11 +161,11 @@ static size_t gen_idx(Tape &t, size_t n, Run &r)
     case 8: v = n; break;
     case 9: v = n + 1; break;
     case 10: v = 2 * n + 1; break;
-    case 11: v = size_t(1) << 31; break;
-    case 12: v = 0xFFFFFFFFull; break;
-    case 13: v = size_t(1) << 63; break;
-    case 14: v = SIZE_MAX - 1; break;
-    default: v = SIZE_MAX; break;
+    case 11: v = (size_t(1) << 31) + near; break;
+    case 12: v = 0xFFFFFFFFull + near; break;
+    case 13: v = (size_t(1) << (63 - (cb / 16) % 4)) + near; break;       // 2^63, 2^62, 2^61, 2^60 (+ small): index * size wraps for sizes 2, 4, 8, 16
+    case 14: v = SIZE_MAX / g_idx_siz + 1 + near; break;                 // the first index whose byte offset wraps
+    default: v = SIZE_MAX - near; break;                                 // as a signed number: -1, -2, ...
     }
     if (v >= (size_t(1) << 32))
     {
@@ -852,6 +855,7 @@ static void run_history(Tape &t, Ctx &cx, uint64_t fail_at, int mode, uint64_t *
         ++cx.rep->subcases;
         uint8_t opb = t.u8();
         Box &b = r.bx[(opb >> 7) & (r.nbox - 1)];
+        g_idx_siz = b.siz ? b.siz : 1;
         uint8_t op = (opb & 0x7F) % 20;
         cx.hash.add(opb);
         switch (op)
